@@ -40,9 +40,13 @@ def _c(name, fl, variant, args, env=None, cpus=5, timeout=300, lgpl=True):
        'interruption points are those of the paths the workload executes; instructions between the library\'s '
        'pthread_sigmask(SIG_BLOCK) and its restore cannot be interrupted by construction and are not stepped',
        'handlers run on the normal stack (sigaltstack handlers are excluded by the documentation)',
-       'tsan variant: ThreadSanitizer delays asynchronous signals to its own delivery points, so it checks the '
-       'happens-before edges of handler sections but not arbitrary interruption points; single-stepping is used '
-       'in plain / builtins / asan builds only',
+       'no tsan variant: ThreadSanitizer runs asynchronous handlers only at its own delivery points (atomic '
+       'operations, interceptor exits), i.e. never at arbitrary instructions; one of these points is the reader-word '
+       'store of rcu_read_unlock(), after the library\'s cmm_annotate_mem_release(), which yields a formal race report '
+       'without behavioural meaning on x86; and under this signal load the TSan runtime left a reader thread stuck '
+       'in a 2 ms usleep() with no signal delivered any more in about 1 of 10-40 runs (seen with gdb), so the '
+       'variant cannot be kept silent. The harness still builds with -fsanitize=thread (asynchronous mode) for '
+       'manual use. Happens-before checking of reader sections is done by C01/C15 on the same library code',
        'bp: the automatic registration by a handler on a not yet registered thread is allowed (that is what the '
        're-check after blocking signals is for); memb/mb: handlers only run read-side sections between '
        'rcu_register_thread() and rcu_unregister_thread() as README requires'])
@@ -77,10 +81,8 @@ def c19(tier, seed):
     out.append(_c('asan-async-mb', 'mb', 'asan', ['--asyncs=%d' % (50000 * s)] + pl_small + ls, cpus=4, timeout=to))
     out.append(_c('asan-step-bp', 'bp', 'asan', ['--traps=%d' % (30000 * s), '--episodes=%d' % (60 * s), '--force-step=1'] + pl + ls,
                   cpus=5, timeout=to))
-    # TSan: happens-before oracle on handler sections (asynchronous only, see assumptions)
-    out.append(_c('tsan-async-memb', 'memb', 'tsan', ['--asyncs=%d' % (20000 * s), '--stall-ms=90000'] + pl + ls, cpus=4, timeout=to * 2))
-    out.append(_c('tsan-async-bp', 'bp', 'tsan', ['--asyncs=%d' % (12000 * s), '--episodes=0', '--stall-ms=90000'] + pl + ls, cpus=4,
-                  timeout=to * 2))
+    # No tsan case: see the assumptions (ThreadSanitizer defers asynchronous signals to its own delivery points,
+    # cannot be single-stepped, and its runtime wedges threads under this signal load about once in 10-40 runs).
     if not q:
         # asynchronous-only volume on the production build, packed placement (preemption interleavings)
         for fl in ('memb', 'mb', 'bp'):
